@@ -487,14 +487,14 @@ def backlog_case(n=3000):
     finally:
         lts.install()
 
-from .real_end import real_end_case
+from .real_end import real_end_case, half_built_case
 
 def check(ctx, pid, n_random, dfs_bound, dfs_cap, corpus=(), model=None):
     """Common body of the C03 / C04 / C11 plugins (and of the session clause of C14, with its own LTS runner)."""
     oracle = ORACLES[pid]
     lts_model = model if model is not None else ctx.model
     direct = {'C11': (('two_sessions', two_sessions_case), ('backlog', backlog_case)),
-              'C03': (('two_sessions_rpc', two_sessions_rpc_case), ('backlog', backlog_case)), 'C04': (('two_sessions_rpc', two_sessions_rpc_case), ('real_end', real_end_case)),
+              'C03': (('two_sessions_rpc', two_sessions_rpc_case), ('backlog', backlog_case)), 'C04': (('two_sessions_rpc', two_sessions_rpc_case), ('real_end', real_end_case), ('half_built', half_built_case)),
               'C14': (('two_sessions_rpc', two_sessions_rpc_case),)}.get(pid, ())
     for name, fn in direct:
         f = fn()
@@ -538,7 +538,7 @@ def check(ctx, pid, n_random, dfs_bound, dfs_cap, corpus=(), model=None):
 def search(ctx, pid, seeds, n=1500):
     oracle = ORACLES[pid]
     direct = {'C11': (('two_sessions', two_sessions_case), ('backlog', backlog_case)),
-              'C03': (('two_sessions_rpc', two_sessions_rpc_case), ('backlog', backlog_case)), 'C04': (('two_sessions_rpc', two_sessions_rpc_case), ('real_end', real_end_case)),
+              'C03': (('two_sessions_rpc', two_sessions_rpc_case), ('backlog', backlog_case)), 'C04': (('two_sessions_rpc', two_sessions_rpc_case), ('real_end', real_end_case), ('half_built', half_built_case)),
               'C14': (('two_sessions_rpc', two_sessions_rpc_case),)}.get(pid, ())
     for name, fn in direct:
         f = fn()
